@@ -72,6 +72,9 @@ func (c *cache) unregister(filter *filter) {
 
 	filter.cache = maxCacheID
 
+	// Copy on write: open queries hold pointers to entries of the old slice.
+	c.filters = append([]cacheEntry(nil), c.filters...)
+
 	last := len(c.filters) - 1
 	if idx != last {
 		c.filters[idx], c.filters[last] = c.filters[last], c.filters[idx]
